@@ -25,6 +25,7 @@ RULE = (
     "accepted iff every member is accepted by some overload, and the inferred type contains each member's own "
     "result; (c) an Any argument with >=2 matching overloads of different result does not yield a single R_i. "
     "Non-trivial = call where >=2 overloads bind and the first does not accept (distinct by set+call)."
+    " Overload sets also carry overlapping return annotations (NoReturn, unions containing another overload's return, equal returns): exhaustive for pairs of unary overloads over 8 types x 7 return-annotation pairs; the Any rule is: the result is not one matching overload's return type unless all matching overloads return the same type."
 )
 ASSUMPTIONS = [
     "'accepts' in the reference is inclusion on witnesses (pv/member.py), arity is decided by really binding a def with the same header",
